@@ -48,7 +48,7 @@ struct Rep
 
 static void one_case(const ClassDef& def, const Space& sp, uint64_t id, const std::vector<int>& idx, Rep& R)
 {
-  const std::string pre = "roundtrip:" + def.name + ":";
+  const std::string pre = "roundtrip:" + def.keyname + ":";
   R.stage("build");
   std::unique_ptr<ASerializable> a(def.build(idx));
   if (!a) { R.outcome("inadmissible-combination"); R.line('K', "skip"); return; }
@@ -142,7 +142,7 @@ static void roundtrip(Ctx& C, const std::string& cname)
     if (!(r.kind == ChildResult::EXITED && r.code == 0))
     {
       C.outcome("crash-in-" + stage);
-      C.violation("roundtrip:" + def.name + ":crash:" + stage,   // the signal / exit status is in the text only (it depends on the heap layout)
+      C.violation("roundtrip:" + def.keyname + ":crash:" + stage,   // the signal / exit status is in the text only (it depends on the heap layout)
                   "the process died (" + r.describe() + ") in stage '" + stage + "' of the round trip [case " + idx_str(sp, idx) + "]", kase);
     }
   });
@@ -152,6 +152,7 @@ static void roundtrip(Ctx& C, const std::string& cname)
 RT(Db)
 RT(DbGrid)
 RT(Model)
+RT(ModelDrift)
 RT(NeighUnique)
 RT(NeighMoving)
 RT(Table)
@@ -186,7 +187,7 @@ VF_PART(tag_refusal)
   sp.axis("writer", (int)cl.size()).axis("reader", (int)cl.size());
   for_each_case(C, sp, [&](uint64_t id, const std::vector<int>& idx) {
     const ClassDef &A = cl[idx[0]], &B = cl[idx[1]];
-    if (!B.fromNF || A.corpus.empty()) { C.skip(); return; }
+    if (!B.fromNF || A.corpus.empty() || A.aux || B.aux) { C.skip(); return; }
     std::string path = scratch_path("c08tag_" + std::to_string(C.shard) + ".nf");
     ChildResult r = run_child([&](int wfd) {
       std::unique_ptr<ASerializable> a(A.build(A.corpus[0]));
